@@ -132,7 +132,11 @@ def pinRows : List (String × String × String × String) := [
   ("TwoHopSwapV2", "token_vault_two_output", "address", "whirlpool_two.output_token_vault(a_to_b_two)"),
   ("TwoHopSwapV2", "token_owner_account_output", "constraint", "token_owner_account_output.mint == token_mint_output.key()"),
   ("TwoHopSwapV2", "oracle_one", "seeds", "[b\"oracle\", whirlpool_one.key().as_ref()]"),
-  ("TwoHopSwapV2", "oracle_two", "seeds", "[b\"oracle\", whirlpool_two.key().as_ref()]")]
+  ("TwoHopSwapV2", "oracle_two", "seeds", "[b\"oracle\", whirlpool_two.key().as_ref()]"),
+  -- the update authority recorded in the position / bundle token's metadata is the program's constant
+  ("OpenPositionWithMetadata", "metadata_update_auth", "address", "WP_NFT_UPDATE_AUTH"),
+  ("OpenPositionWithTokenExtensions", "metadata_update_auth", "address", "WP_NFT_UPDATE_AUTH"),
+  ("InitializePositionBundleWithMetadata", "metadata_update_auth", "address", "WPB_NFT_UPDATE_AUTH")]
 
 /-- every slot of every fund-moving accounts struct, with the reason it cannot be substituted -/
 def slotRows : List (String × String × String) := [
